@@ -758,7 +758,10 @@ fn exec_stmt(w: &Rc<World>, env: &mut Vec<H>, run: &mut Run, s: &Stmt) {
             if got != expected {
                 let mut sh = w.sh.borrow_mut();
                 let cur = sh.cur();
-                sh.ctx_fail.get_or_insert(format!("[context] try_use_context::<Ctx{ty}> in scope {cur} returned {got:?}, nearest enclosing provider gives {expected:?}"));
+                // (a lookup made by a cleanup, i.e. while a scope is being torn down, is a class of its own: it also belongs to
+                // "scopes can be disposed at any point without corruption")
+                let cls = if sh.cleanup_depth > 0 { "context-in-teardown" } else { "context" };
+                sh.ctx_fail.get_or_insert(format!("[{cls}] try_use_context::<Ctx{ty}> in scope {cur} returned {got:?}, nearest enclosing provider gives {expected:?}"));
             }
             run.acc = mix(run.acc, got.unwrap_or(-8));
             run.obs.push(match got {
@@ -1222,6 +1225,11 @@ pub fn run_case(ops: &[Stmt]) -> CaseResult {
                     } else if expected != Some(cls) {
                         flags.insert("unexpected-panic");
                         add(&mut verdicts, format!("[unexpected-panic] op {k} `{}` panicked: {m}", show(op)));
+                        // the harness' own bookkeeping says the scope does not provide that type (the documented duplicate
+                        // panic was not expected): a provision of an earlier run / of a torn down scope is still there
+                        if m.contains("exists already in this scope") {
+                            add(&mut verdicts, format!("[context] op {k} `{}`: provide_context panicked ('{m}') although the scope provides no value of that type any more", show(op)));
+                        }
                     } else {
                         flags.insert("documented-panic");
                     }
